@@ -16,7 +16,7 @@ from oqv.astutil import branch_context, call_name, method_call
 from oqv.cfg import CFG
 from oqv.dataflow import DefUse
 from oqv.forms import Poly, eval_form
-from oqv.model import AnalysisError, Program, Unit, dotted, norm, walk_local
+from oqv.model import AnalysisError, Program, Unit, dotted, norm, walk_local, kw_of
 from oqv.report import Check
 
 BC = "bath_correlations"
@@ -99,11 +99,11 @@ def quadrature_regions(prog: Program) -> Dict[str, Tuple[Poly, Poly, object, obj
         raise AnalysisError("L1: dblquad calls / boundary tables of CustomCorrelations vanished")
     sigs = []
     for c in dq:
-        kw = {k.arg: k.value for k in c.keywords}
+        kw = kw_of(c)
         sigs.append((norm(kw.get("a")), norm(kw.get("b")), norm(kw.get("gfun")), norm(kw.get("hfun"))))
     if sigs[0] != sigs[1]:
         raise AnalysisError(f"L1: real and imaginary dblquad integrate different regions: {sigs}")
-    kw = {k.arg: k.value for k in dq[0].keywords}
+    kw = kw_of(dq[0])
     if norm(kw["a"]) != "time_1" or norm(kw["b"]) != "time_2":
         raise AnalysisError("L1: dblquad outer limits are not (time_1, time_2)")
     gname = dotted(kw["gfun"].value) if isinstance(kw["gfun"], ast.Subscript) else None
@@ -330,7 +330,7 @@ def l1_l2(prog: Program, chk: Check) -> None:
         du = DefUse(u, CFG(u.node, exc_edges=False))
         chk.saw(u, du.cfg)
         nid = du.node_of(c)
-        kw = {k.arg: k.value for k in c.keywords}
+        kw = kw_of(c)
         params = ["delta", "time_1", "time_2", "shape"]
         for i, a in enumerate(c.args):
             kw.setdefault(params[i], a)
@@ -583,8 +583,8 @@ def l4(prog: Program, chk: Check) -> None:
                               "is not a registered type)")
         ints = [c for c in ast.walk(u.node) if isinstance(c, ast.Call)
                 and call_name(c) == "_complex_integral"]
-        bounds = [(norm(next(k.value for k in c.keywords if k.arg == "a")),
-                   norm(next(k.value for k in c.keywords if k.arg == "b"))) for c in ints]
+        bounds = [(norm(kw_of(c).get("a", ast.Constant(value="?"))),
+                   norm(kw_of(c).get("b", ast.Constant(value="?")))) for c in ints]
         ok = bounds == [("0.0", "self.cutoff"), ("self.cutoff", "np.inf")]
         chk.add("L4", u, f"integration ranges {bounds}", ok,
                 "" if ok else "the frequency axis is not covered as [0, cutoff] + [cutoff, inf)")
